@@ -4,7 +4,7 @@
    it is what the correspondence check establishes on every run.  The theorems
    are the structural laws the property names, for arbitrary sub-expressions,
    and the independence of the answer from the fuel. *)
-From YQ Require Import Base.Str Model.Node Model.Store Model.Eval Proofs.EvalLaws Proofs.EvalFuel Proofs.EvalTotal Proofs.GlobProofs.
+From YQ Require Import Base.Str Model.Node Model.Store Model.Eval Proofs.EvalLaws Proofs.EvalFuel Proofs.EvalTotal Proofs.GlobProofs Proofs.EvalNoPanic.
 
 (* `|` composes *)
 Theorem C01_pipe_composes : forall f l r ro vs ctx st,
@@ -77,6 +77,14 @@ Theorem C01_fuel_sufficient : forall f e ro vs ctx st,
   (depth e <= f)%nat -> eval f e ro vs ctx st <> OutOfFuel.
 Proof. exact eval_fuel_sufficient. Qed.
 Print Assumptions C01_fuel_sufficient.
+
+(* ... and on every delete-free expression that outcome is never the model's Panic: the evaluator model defines a
+   result list or an error for each of them (the index operator's Front() site is unreachable, a collect always
+   hands back a result); the correspondence compares the outcome class, so a crash of yq there is a disagreement *)
+Theorem C01_no_panic_without_delete : forall f e ro vs ctx st,
+  no_del e = true -> eval f e ro vs ctx st <> Panic.
+Proof. exact eval_no_panic. Qed.
+Print Assumptions C01_no_panic_without_delete.
 
 (* keys and == go through matchKey (Model/Bounds.v, line by line from matchKeyString.go): on a pattern without
    * and ? that matcher IS string equality, and key traversal by pattern selects or creates exactly that key *)
